@@ -4,14 +4,17 @@ From GD Require Import C06.Convert C01.Field C01.Read C01.Inst C16.Limits.
 Import ListNotations.
 Local Open Scope Z_scope.
 
-Definition x_impl_read (db : database) (rt : ctype) (f : field) (s n : Z) : option (list xval) :=
-  impl_read XAlg db rt f s n.
+Definition mk_variant (a b c d e : bool) : variant :=
+  {| v_align := a; v_rawpad := b; v_alloc0 := c; v_clamp := d; v_bofceil := e |}.
+
+Definition x_impl_read (db : database) (v : variant) (rt : ctype) (f : field) (s n : Z) : option (list xval) :=
+  impl_read XAlg db v rt f s n.
 Definition x_spec_window (db : database) (rt : ctype) (f : field) (s n : Z) : list xval :=
   spec_window XAlg db rt f s n.
 Definition x_spec_val (db : database) (rt : ctype) (f : field) (k : Z) : xval :=
   spec_val XAlg db rt f k.
-Definition x_uncovered (db : database) (rt : ctype) (f : field) (s n : Z) : list tag :=
-  uncovered XAlg db rt f s n.
+Definition x_uncovered (db : database) (v : variant) (rt : ctype) (f : field) (s n : Z) : list tag :=
+  uncovered XAlg db v rt f s n.
 Definition x_wfb (db : database) (f : field) : bool := wfb db f.
 Definition x_spf (db : database) (f : field) : Z := spf db f.
 Definition x_eof (db : database) (f : field) : ext := eof db f.
